@@ -2,6 +2,7 @@ package main
 
 import (
 	"flag"
+	"runtime/pprof"
 	"fmt"
 	"os"
 	"strconv"
@@ -38,9 +39,16 @@ func main() {
 	}
 	cfg := &gosmt.Config{Repo: *repo, Verif: *verif, Property: *prop, Tier: *tier, Seed: seed, Only: *only,
 		Workers: *workers, Trace: *trace, NoReplay: *noreplay, Verbose: *verbose}
+	if pf := os.Getenv("GOSMT_PROF"); pf != "" {
+		f, _ := os.Create(pf)
+		pprof.StartCPUProfile(f)
+		defer pprof.StopCPUProfile()
+	}
 	switch cmd {
 	case "check":
-		os.Exit(gosmt.Check(cfg))
+		rc := gosmt.Check(cfg)
+		pprof.StopCPUProfile()
+		os.Exit(rc)
 	case "replay":
 		os.Exit(gosmt.Replay(cfg, *file))
 	}
